@@ -60,10 +60,11 @@ type pcfg struct {
 	kind     string // basic | capacity | fresh
 	barrierK int
 	burst    int
+	rounds   int // bound: overload rounds with parked tasks before the bound is measured
 }
 
 func (c pcfg) name() string {
-	return fmt.Sprintf("pool kind=%s N=%d Q=%d custom=%v subs=%d each=%d panic=%d stop=%v k=%d burst=%d", c.kind, c.n, c.q, c.custom, c.subs, c.each, c.panicAt, c.stop, c.barrierK, c.burst)
+	return fmt.Sprintf("pool kind=%s N=%d Q=%d custom=%v subs=%d each=%d panic=%d stop=%v k=%d burst=%d", c.kind, c.n, c.q, c.custom, c.subs, c.each, c.panicAt, c.stop, c.barrierK, c.burst) + map[bool]string{true: fmt.Sprintf(" rounds=%d", c.rounds), false: ""}[c.rounds > 0]
 }
 
 func newPool(c pcfg) *taskpool.TaskPool {
@@ -161,6 +162,45 @@ func poolBody(c pcfg) func() {
 				tp.Go(fn)
 				t.retSeq = w.tick()
 				vsched.WaitIdle()
+			}
+			// overload rounds: more parked tasks than the pool runs at once are handed over (the
+			// dispatcher has to take some while no worker can be forked), then all are released;
+			// the bookkeeping must be back where a fresh pool's is
+			for r := 0; r < c.rounds; r++ {
+				rel := 0 // tasks 0..rel-1 of this round may finish (released one by one: their completion orders add nothing)
+				r := r
+				vsched.GoNamed(fmt.Sprintf("overload%d", r), func() {
+					for j := 0; j < c.n+c.q+1; j++ {
+						j := j
+						t := &task{id: fmt.Sprintf("over%d.%d", r, j)}
+						w.tasks = append(w.tasks, t)
+						t.callSeq = w.tick()
+						tp.Go(func() {
+							w.running++
+							if w.running > w.maxRun {
+								w.maxRun = w.running
+							}
+							t.starts = append(t.starts, w.tick())
+							vsched.Block("overload-hold", func() bool { return rel > j })
+							w.running--
+							t.ends = append(t.ends, w.tick())
+						})
+						t.retSeq = w.tick()
+					}
+				})
+				vsched.WaitIdle()
+				if w.maxRun > c.n {
+					w.fails = append(w.fails, fmt.Sprintf("bound|%d tasks ran at once in overload round %d, bound is %d", w.maxRun, r, c.n))
+				}
+				for rel < c.n+c.q+1 {
+					rel++
+					vsched.WaitIdle()
+				}
+				for _, t := range w.tasks {
+					if strings.HasPrefix(t.id, fmt.Sprintf("over%d.", r)) && len(t.ends) != 1 {
+						w.fails = append(w.fails, fmt.Sprintf("lost|overload task %s did not run exactly once (%d)", t.id, len(t.ends)))
+					}
+				}
 			}
 			w.maxRun = 0
 			vsched.GoNamed("submitter0", func() {
@@ -400,6 +440,9 @@ func build(tier string) []*vkit.Scenario {
 				addPool(pcfg{n: n, q: q, custom: custom, kind: "basic", subs: 2, each: 2, panicAt: 0, stop: true}, P1)
 				addPool(pcfg{n: n, q: q, custom: custom, kind: "bound", each: n + 1, panicAt: -1}, P1)
 				addPool(pcfg{n: n, q: q, custom: custom, kind: "bound", each: n + 1, panicAt: -1, burst: 3}, P1)
+				if n == 3 || thorough {
+					addPool(pcfg{n: n, q: q, custom: custom, kind: "bound", each: n + 1, panicAt: -1, rounds: 2}, P1-1)
+				}
 				if thorough {
 					addPool(pcfg{n: n, q: q, custom: custom, kind: "basic", subs: 2, each: 3, panicAt: 0}, P1)
 					addPool(pcfg{n: n, q: q, custom: custom, kind: "basic", subs: 3, each: 2, panicAt: -1, stop: true}, P1)
